@@ -1,7 +1,6 @@
 (** Canonical printer and well-formedness of the FULL source AST of Foreign.v ([xitem]: references
-    with arguments), used only to STATE the full soundness statement of property C06 (the proved
-    theorems cover argument-less references, see ForeignSound2.v / ForeignSound3.v).
-    Definitions only. *)
+    with arguments), in which the full soundness statement of property C06 is stated
+    (ForeignSound4.v) and proved (ForeignSound7.v).  Definitions only. *)
 From Coq Require Import List NArith ZArith Bool Arith.
 Import ListNotations.
 From LI Require Import Base.StrOps Parser.Parse Parser.Json Parser.Reduce Parser.RoundTrip1 Parser.RoundTrip2
@@ -67,10 +66,8 @@ Fixpoint xwf (inarg : bool) (i : xitem) : bool :=
 with xwf_arg (a : xarg) : bool :=
   match a with
   | XAStr l => forallb (xwf true) l
-  | XALit (LStr s) => forallb argch s
-  | XALit (LFloat _) => false
-  | XALit (LSigned z) => (z <? 0)%Z          (* a non-negative integer is read back as unsigned *)
-  | XALit _ => true
+    (* booleans and the integers serde reads back as the same literal; a JSON string is [XAStr] *)
+  | XALit l => lit_ok l
   end.
 Definition xitems_wf (l : list xitem) : bool := forallb (xwf false) l.
 End XWf.
